@@ -237,6 +237,88 @@ Proof.
     unfold store_step, store_vaa. rewrite Es. reflexivity.
 Qed.
 
+(* ------------------------------------------------------------------ exactly the last committed store under the identifier *)
+(* transactions committed by a history, newest first *)
+Definition commits (h : list ev) : list nat := fold_left (fun acc e => match e with ECommit n => n :: acc | _ => acc end) h [].
+(* does transaction m store under identifier i? *)
+Definition stores_id (h : list ev) (i : vid) (m : nat) : bool :=
+  match nth_error (starts h) m with Some v => id_eqb (id_of v) i | None => false end.
+Definition last_committed (h : list ev) (i : vid) : option vaa :=
+  match find (stores_id h i) (commits h) with Some m => nth_error (starts h) m | None => None end.
+
+Lemma commits_snoc h e : commits (h ++ [e]) = match e with ECommit n => n :: commits h | _ => commits h end.
+Proof. unfold commits. rewrite fold_left_app. reflexivity. Qed.
+
+Lemma find_ext_in {A} (f g : A -> bool) l : (forall x, In x l -> f x = g x) -> find f l = find g l.
+Proof.
+  induction l as [|x l IH]; intros H; [reflexivity|]. cbn [find]. rewrite (H x (or_introl eq_refl)).
+  destruct (g x); [reflexivity|]. apply IH. intros y Hy. apply H. right. exact Hy.
+Qed.
+
+Record Inv2 (st : cstate) (h : list ev) : Prop := {
+  j_comm : committed st = commits h;
+  j_get : forall i, idwf i -> get (dur st) (key i) = option_map marshal (last_committed h i) }.
+
+Lemma inv2_init : Inv2 cinit [].
+Proof. split; [reflexivity|intros i _; reflexivity]. Qed.
+
+Lemma inv2_step st h e st' : Inv st h -> Inv2 st h -> Forall wf (starts (h ++ [e])) -> exec st e = Some st' -> Inv2 st' (h ++ [e]).
+Proof.
+  intros [N I C D] [JC JG] W H. pose proof (starts_snoc h e) as Hs. pose proof (commits_snoc h e) as Hc.
+  assert (Same : forall i, starts (h ++ [e]) = starts h -> commits (h ++ [e]) = commits h -> last_committed (h ++ [e]) i = last_committed h i).
+  { intros i E1 E2. unfold last_committed, stores_id. rewrite E1, E2. reflexivity. }
+  destruct e as [v|v|n|n|n|n| | |i0 res]; cbn [exec] in H; lazy beta iota in Hs, Hc; try rewrite app_nil_r in Hs.
+  - (* EStart: one more started VAA, nothing committed *)
+    destruct (up st && _); [|discriminate]. injection H as <-. split; cbn [committed dur]; [rewrite Hc; exact JC|].
+    intros i Hi. rewrite (JG i Hi). f_equal. unfold last_committed. rewrite Hc.
+    assert (Hlt : forall m, In m (commits h) -> nth_error (starts (h ++ [EStart v])) m = nth_error (starts h) m).
+    { intros m Hm. rewrite <- JC in Hm. destruct (C m Hm) as (v' & Hv' & _). rewrite Hs, Hv'. apply nth_error_app_some. exact Hv'. }
+    rewrite (find_ext_in (stores_id (h ++ [EStart v]) i) (stores_id h i)).
+    2:{ intros m Hm. unfold stores_id. rewrite (Hlt m Hm). reflexivity. }
+    destruct (find (stores_id h i) (commits h)) as [m|] eqn:Ef; [|reflexivity]. symmetry. apply Hlt. apply (find_some _ _ Ef).
+  - destruct (up st && db_store_panics_unsigned && _); [|discriminate]. injection H as <-.
+    split; [rewrite Hc; exact JC|]. intros i Hi. rewrite (Same i Hs Hc). apply JG. exact Hi.
+  - (* ECommit *)
+    destruct (up st); [|discriminate]. destruct (find_txn n (infl st)) as [t|] eqn:Ef; [|discriminate]. injection H as <-.
+    apply find_txn_In in Ef as [Hin Hid]. destruct (I t Hin) as (v & Hv & Hk & Hb). rewrite Hid in Hv.
+    split; cbn [committed dur]; [rewrite Hc, JC; reflexivity|]. intros i Hi. rewrite get_put, Hk, Hb.
+    assert (Wv : wf v). { rewrite Hs in W. rewrite Forall_forall in W. apply W. eapply nth_error_In. exact Hv. }
+    rewrite (key_eqb _ _ (wf_idwf v Wv) Hi). unfold last_committed. rewrite Hc, Hs. cbn [find]. unfold stores_id at 1. rewrite Hs, Hv.
+    destruct (id_eqb (id_of v) i); [rewrite Hv; reflexivity|]. rewrite (JG i Hi). unfold last_committed.
+    rewrite (find_ext_in (stores_id (h ++ [ECommit n]) i) (stores_id h i)); [reflexivity|].
+    intros m _. unfold stores_id. rewrite Hs. reflexivity.
+  - destruct (up st); [|discriminate]. destruct (find_txn n (infl st)) as [t|]; [|discriminate]. injection H as <-.
+    split; cbn [committed dur]; [rewrite Hc; exact JC|]. intros i Hi. rewrite (Same i Hs Hc). apply JG. exact Hi.
+  - destruct (up st && _); [|discriminate]. injection H as <-. split; [rewrite Hc; exact JC|]. intros i Hi. rewrite (Same i Hs Hc). apply JG. exact Hi.
+  - destruct (up st && _); [|discriminate]. injection H as <-. split; [rewrite Hc; exact JC|]. intros i Hi. rewrite (Same i Hs Hc). apply JG. exact Hi.
+  - destruct (up st); [|discriminate]. injection H as <-. split; cbn [committed dur]; [rewrite Hc; exact JC|]. intros i Hi. rewrite (Same i Hs Hc). apply JG. exact Hi.
+  - destruct (up st); [discriminate|]. injection H as <-. split; cbn [committed dur]; [rewrite Hc; exact JC|]. intros i Hi. rewrite (Same i Hs Hc). apply JG. exact Hi.
+  - destruct (up st && _); [|discriminate]. injection H as <-. split; [rewrite Hc; exact JC|]. intros i Hi. rewrite (Same i Hs Hc). apply JG. exact Hi.
+Qed.
+
+Lemma inv2_run_from : forall h h0 st0 st, Inv st0 h0 -> Inv2 st0 h0 -> Forall wf (starts (h0 ++ h)) -> run_evs st0 h = Some st -> Inv2 st (h0 ++ h).
+Proof.
+  induction h as [|e h IH]; intros h0 st0 st HI HJ W H; cbn [run_evs] in H.
+  - injection H as <-. rewrite app_nil_r. exact HJ.
+  - destruct (exec st0 e) as [st1|] eqn:E; [|discriminate].
+    replace (h0 ++ e :: h) with ((h0 ++ [e]) ++ h) in * by (rewrite <- app_assoc; reflexivity).
+    assert (W1 : Forall wf (starts (h0 ++ [e]))). { rewrite starts_app in W. apply Forall_app in W as [W _]. exact W. }
+    eapply IH; [eapply inv_step; eassumption|eapply inv2_step; eassumption|exact W|exact H].
+Qed.
+
+(* a lookup returns exactly the bytes of the most recently committed store under that identifier, and not-found exactly when
+   no store under it has committed — whatever kills and reopens lie in between *)
+Theorem lookup_is_last_committed h i res st : run_evs cinit (h ++ [EGet i res]) = Some st -> Forall wf (starts h) -> idwf i ->
+  res = match last_committed h i with Some v => Found (marshal v) | None => NotFound end.
+Proof.
+  intros H W Hi. rewrite run_evs_app in H. destruct (run_evs cinit h) as [s|] eqn:E; [|discriminate].
+  cbn [run_evs] in H. destruct (exec s (EGet i res)) as [s'|] eqn:Eg; [|discriminate].
+  cbn [exec] in Eg. destruct (up s); [|discriminate]. cbn [andb] in Eg.
+  destruct (lres_eqb (get_signed_vaa_bytes (dur s) i) res) eqn:El; [|discriminate]. apply lres_eqb_eq in El. subst res.
+  pose proof (inv2_run_from h [] cinit s inv_init inv2_init W E) as [_ JG]. cbn [app] in JG.
+  unfold get_signed_vaa_bytes. rewrite (JG i Hi). destruct (last_committed h i); reflexivity.
+Qed.
+
 (* ------------------------------------------------------------------ the engine contract as a hypothesis *)
 (* Any concrete engine + wrapper (badger under db.go) whose steps are simulated by [exec] through an abstraction function
    inherits the theorems above.  The simulation itself is the TRUSTED engine contract: it cannot be proved here and is the
